@@ -129,10 +129,10 @@ func c17Exec(r *vf.Run, cfg c17Cfg, c *vf.Chooser) (keys, whats []string) {
 	pan, pw, hung := vf.GuardTimeout(vf.CallTimeout, func() {
 		switch cfg.Entry {
 		case 0:
-			callStart = time.Now()
+			callStart = conn.VNow()
 			opErr = cl.DialWithContext(ctx)
 		case 1:
-			callStart = time.Now()
+			callStart = conn.VNow()
 			opErr = cl.DialAndSendWithContext(ctx, c17Msgs(cfg)...)
 		default:
 			if err := cl.DialWithContext(ctx); err != nil {
@@ -144,7 +144,7 @@ func c17Exec(r *vf.Run, cfg c17Cfg, c *vf.Chooser) (keys, whats []string) {
 			if cfg.Entry == 4 {
 				conn.Skew = time.Hour
 			}
-			callStart = time.Now()
+			callStart = conn.VNow()
 			if cfg.Entry == 3 {
 				opErr = cl.Reset()
 			} else {
@@ -180,7 +180,7 @@ func c17Exec(r *vf.Run, cfg c17Cfg, c *vf.Chooser) (keys, whats []string) {
 		var fStart time.Time
 		var fErr error
 		fpan, fpw, fhung := vf.GuardTimeout(vf.CallTimeout, func() {
-			fStart = time.Now()
+			fStart = conn.VNow()
 			switch cfg.Follow {
 			case 1:
 				fErr = cl.Reset()
@@ -206,11 +206,10 @@ func c17Exec(r *vf.Run, cfg c17Cfg, c *vf.Chooser) (keys, whats []string) {
 			case fb.Deadline.IsZero():
 				add(fmt.Sprintf("unbounded-block/op=%s", fname),
 					fmt.Sprintf("%s: the client %ss on the still silent server with no deadline armed on the connection (tls=%s auth=%s)", fname, fb.Op, c17TLS[cfg.TLS], c17Auth[cfg.Auth]))
-			case fb.Deadline.After(fStart.Add(conn.Skew).Add(c17Tmo + c17Slack)):
+			case fb.Deadline.After(fStart.Add(c17Tmo + c17Slack)):
 				add(fmt.Sprintf("deadline-too-late/op=%s", fname),
-					fmt.Sprintf("%s: blocked with a deadline %.1fs after the call started; configured timeout is %v", fname, fb.Deadline.Sub(fStart.Add(conn.Skew)).Seconds(), c17Tmo))
+					fmt.Sprintf("%s: blocked with a deadline %.1fs after the call started; configured timeout is %v", fname, fb.Deadline.Sub(fStart).Seconds(), c17Tmo))
 			}
-			break
 		}
 		r.Outcome("follow/" + c17Follow[cfg.Follow] + fmt.Sprintf("/blocks=%d", minInt(1, len(conn.Blocks[nb:]))))
 	}
@@ -228,23 +227,37 @@ func c17Exec(r *vf.Run, cfg c17Cfg, c *vf.Chooser) (keys, whats []string) {
 	if b.Op == "write" {
 		after = "DATA-content(write)"
 	}
-	virtNow := b.At.Add(conn.Skew)
-	switch {
-	case b.Deadline.IsZero():
-		r.Outcome("unbounded")
-		add(fmt.Sprintf("unbounded-block/op=%s/stalled-after=%s", entry, after),
-			fmt.Sprintf("%s: the server went silent after %s and the client %ss with no deadline armed on the connection: the call would block forever (tls=%s auth=%s)", entry, b.After, b.Op, c17TLS[cfg.TLS], c17Auth[cfg.Auth]))
-	case b.Deadline.After(callStart.Add(conn.Skew).Add(c17Tmo + c17Slack)):
-		r.Outcome("late-deadline")
-		add(fmt.Sprintf("deadline-too-late/op=%s/stalled-after=%s", entry, after),
-			fmt.Sprintf("%s: blocked after %s with a deadline %.1fs after the call started; configured timeout is %v", entry, b.After, b.Deadline.Sub(callStart.Add(conn.Skew)).Seconds(), c17Tmo))
-	default:
-		_ = virtNow
-		r.Outcome("bounded")
-		if opErr == nil {
-			add(fmt.Sprintf("stall-reported-as-success/op=%s/stalled-after=%s", entry, after),
-				fmt.Sprintf("%s returned nil although the server stopped responding after %s", entry, b.After))
+	// every time the client blocks during the call a deadline must be armed, and on the connection's virtual clock
+	// (which every resolved wait advances) none may lie later than call start + timeout + slack: a client that
+	// re-arms the deadline after a timeout and waits again exceeds the bound although each single wait is bounded
+	verdict := "bounded"
+	for bi, bb := range blocks {
+		aft := after
+		if bi > 0 {
+			aft = bb.After
+			for i := 0; i < len(aft); i++ {
+				if aft[i] == '#' {
+					aft = aft[:i]
+					break
+				}
+			}
+			aft = after + "/then-again-after=" + aft
 		}
+		switch {
+		case bb.Deadline.IsZero():
+			verdict = "unbounded"
+			add(fmt.Sprintf("unbounded-block/op=%s/stalled-after=%s", entry, aft),
+				fmt.Sprintf("%s: the server went silent after %s and the client %ss with no deadline armed on the connection: the call would block forever (tls=%s auth=%s)", entry, bb.After, bb.Op, c17TLS[cfg.TLS], c17Auth[cfg.Auth]))
+		case bb.Deadline.After(callStart.Add(c17Tmo + c17Slack)):
+			verdict = "late-deadline"
+			add(fmt.Sprintf("deadline-too-late/op=%s/stalled-after=%s", entry, aft),
+				fmt.Sprintf("%s: wait no. %d of the call (after %s) ends %.1fs after the call started; configured timeout is %v", entry, bi+1, bb.After, bb.Deadline.Sub(callStart).Seconds(), c17Tmo))
+		}
+	}
+	r.Outcome(verdict)
+	if verdict == "bounded" && opErr == nil {
+		add(fmt.Sprintf("stall-reported-as-success/op=%s/stalled-after=%s", entry, after),
+			fmt.Sprintf("%s returned nil although the server stopped responding after %s", entry, b.After))
 	}
 	return
 }
@@ -253,7 +266,7 @@ func init() {
 	vf.Register(&vf.Check{
 		ID: "C17", Title: "every network operation is bounded by the configured timeout",
 		Run: func(r *vf.Run) {
-			r.SetRule("one stall (server silent, connection open) at every command position of the dialogue — greeting, EHLO, STARTTLS, inside the TLS handshake, every AUTH step, NOOP, MAIL, each RCPT, DATA, mid-content (server stops reading), end-of-data, RSET, QUIT — × TLS mode {none, STARTTLS, implicit} × auth {none, PLAIN, LOGIN, SCRAM-SHA-256} × entry point {DialWithContext, DialAndSend, Send, Reset, Send after an idle hour} × caller context with/without own deadline × history {none, then Reset / Send / Close on the same Client while the server stays silent}; oracle is logical: when the client blocks on the silent peer a deadline <= call start + timeout + 1.5 s must be armed on the connection; distinct by (configuration, stall position)")
+			r.SetRule("one stall (server silent, connection open) at every command position of the dialogue — greeting, EHLO, STARTTLS, inside the TLS handshake, every AUTH step, NOOP, MAIL, each RCPT, DATA, mid-content (server stops reading), end-of-data, RSET, QUIT — × TLS mode {none, STARTTLS, implicit} × auth {none, PLAIN, LOGIN, SCRAM-SHA-256} × entry point {DialWithContext, DialAndSend, Send, Reset, Send after an idle hour} × caller context with/without own deadline × history {none, then Reset / Send / Close on the same Client while the server stays silent}; oracle is logical: whenever the client blocks on the silent peer a deadline must be armed on the connection and, on the connection's virtual clock (advanced by every wait the client sat through), end <= call start + timeout + 1.5 s — for EVERY wait of the call, so re-arming after a timeout and waiting again is seen; distinct by (configuration, stall position)")
 			r.Assume("net.Conn deadline semantics as documented (a blocked Read/Write returns at the armed deadline; with none armed it never returns)",
 				"the caller's context is not a bound: the property promises the configured timeout",
 				"idle time is simulated by skewing the connection's clock by one hour")
